@@ -586,9 +586,9 @@ def data_families(d):
     F.append(fam('chain-foldr-thunks', 'std.foldr(function(i, acc) [acc[0] + 1], %s, [0])[0]' % r, '%d' % d))
     nest = 'std.foldl(function(a, i) [a], %s, [1])' % r
     nobj = 'std.foldl(function(a, i) { x: a }, %s, { x: 1 })' % r
-    # these two walk the structure without counting a frame per level (see the open finding endless-data-walk)
-    F.append(fam('walk-flatten-deep', 'std.flattenDeepArray(%s)' % nest, '[1]', depthful=False))
-    F.append(fam('walk-deep-join', 'std.deepJoin(std.foldl(function(a, i) [a], %s, ["s"]))' % r, '"s"', depthful=False))
+    # since fix 62ce906 these two count a frame per nesting level like every other walk
+    F.append(fam('walk-flatten-deep', 'std.flattenDeepArray(%s)' % nest, '[1]'))
+    F.append(fam('walk-deep-join', 'std.deepJoin(std.foldl(function(a, i) [a], %s, ["s"]))' % r, '"s"'))
     F.append(fam('walk-prune', 'std.length(std.toString(std.prune(%s)))' % nest, '%d' % (2 * d + 3)))
     F.append(fam('walk-merge-patch', 'std.length(std.manifestJsonMinified(std.mergePatch(%s, %s)))' % (nobj, nobj), '%d' % (6 * d + 7)))
     F.append(fam('walk-equals-fn', 'std.equals(%s, %s)' % (nest, nest), 'true'))
